@@ -111,7 +111,14 @@ func knownBuildDefects(w *kit.World) {
 
 func step(m *kit.Model, nodes []node, k int, id kit.Ident, ctx string) {
 	want, ok := m.Resolve(id, k)
-	vals, err := resolveReal(nodes[k].p, id)
+	var vals []any
+	var err error
+	if ctx == "sweep2" {
+		// the generic helpers Resolve / ResolveKeyed / ResolveGroup instead of Get*
+		vals, err = kit.GenericResolve(nodes[k].p, id.Type, id.Key, id.Group)
+	} else {
+		vals, err = resolveReal(nodes[k].p, id)
+	}
 	if !ok {
 		vrt.Assert(errors.Is(err, godi.ErrServiceNotFound), "C04.phantom_identity", ctx, "identity not registered but resolution did not report not-found")
 		return
